@@ -9,7 +9,9 @@ Shangrla.NM.sampleSize.
   op "contest"       Contest.find_sample_size (assertions made by make_plurality_assertions)
   op "audit_contest" Audit.find_sample_size: con.sample_size = max over the unproved assertions
   op "audit"         Audit.find_sample_size on 2-4 contests in one call (dict orders, style / no style, polling,
-                     comparison, ONEAudit with the error injection): every con.sample_size and the returned total
+                     comparison, ONEAudit with the error injection): every con.sample_size and the returned total;
+                     with style information also every cvr.p (cards already sampled, phantoms, cards listing a subset
+                     of the contests, contests with no cards left to draw) -- also for "audit_contest"
   op "raire"         shangrla/raire/sample_estimator.py: sample_size
 
 Numbers in a case are exact "p/q" strings: the implementation receives float(p/q), the model p/q.
@@ -37,11 +39,16 @@ RULE = ("nm: test x estimator/bet configs of group nm with finite N <= 60 (quick
         "values; contest/audit_contest: 1-4 assertions, with and without MVR sample, proved flags; audit: the real "
         "Audit.find_sample_size on 2-4 contests in one call (tight and landslide contests in random dict order, "
         "use_style True/False, POLLING / CARD_COMPARISON / ONEAUDIT incl. the error injection, with and without MVRs, "
-        "proved flags; every con.sample_size and the no-style total are compared); raire: both "
+        "proved flags; every con.sample_size and the returned total of both branches are compared; style cases "
+        "(audit and audit_contest): 0-24 cards of which some are already sampled, some phantoms, some list only a subset "
+        "of the contests or none, con.cards at the time of the call equal to / one below / one above the number of the "
+        "contest's cards already sampled (cards - old = 0: inf / nan, OverflowError / ValueError) or equal to the number of "
+        "(non-phantom) cards listing it; every cvr.p after the call and the total are compared with the exact model values); raire: both "
         "branches. Excluded from the diff (counted as fragile, still seen by the oracle): a float comparison within "
         "1e-9 of its threshold (history entry vs risk limit, null mean vs 0 or u, total vs N t), int(1/rate) "
         "differing between float and exact arithmetic, alternative eta within ulps of u, a factor of the running product below 1e-6 (all only up to the model's first "
-        "crossing). non-trivial = not a "
+        "crossing); the exact sum of the cvr.p within 1e-9 of an integer with a summand that is not a binary fraction "
+        "(math.ceil of the float sum may differ by one). non-trivial = not a "
         "constant pilot, not a single interleaved value; distinct = distinct canonical input")
 EXHAUSTIVE = {"quick": False, "thorough": False}
 
@@ -156,11 +163,23 @@ def build_multi(case):
     return build_multi_c(case["contest"], case.get("proved"))
 
 
+def card_votes(card):
+    """the contests of a card dict (keys starting with "_" are flags, not contests)"""
+    return {cid: v for cid, v in card.items() if not cid.startswith("_")}
+
+
 def build_cards(cards):
-    """CVR objects from a list of {contest id: candidate | None (contest on the card, no vote)}"""
+    """CVR objects from a list of {contest id: candidate | None (contest on the card, no vote)}; a card may list only
+    some of the contests or none; the reserved keys "_sampled" / "_phantom" set the CVR's `sampled` / `phantom` flag"""
     from shangrla.core.Audit import CVR
-    return CVR.from_dict([{"id": str(i), "votes": {cid: ({v: True} if v is not None else {}) for cid, v in card.items()},
-                           "sample_num": i, "sampled": False} for i, card in enumerate(cards)])
+    return CVR.from_dict([{"id": str(i), "votes": {cid: ({v: True} if v is not None else {}) for cid, v in card_votes(card).items()},
+                           "sample_num": i, "sampled": bool(card.get("_sampled", False)),
+                           "phantom": bool(card.get("_phantom", False))} for i, card in enumerate(cards)])
+
+
+def obs_p(cvrs):
+    """the `p` attribute of every CVR after the call (None where the code did not set it)"""
+    return None if cvrs is None else [None if c.p is None else float(c.p) for c in cvrs]
 
 
 def build_audit_multi(case):
@@ -173,6 +192,11 @@ def build_audit_multi(case):
                                               "use_style": case["use_style"], "replacement": False}}})
     contests = {c["id"]: build_multi_c(dict(c, use_style=case["use_style"]), c.get("proved"), cid=c["id"])
                 for c in case["contests"]}
+    for c in case["contests"]:
+        if c.get("cards_now") is not None:
+            # the contest's `cards` attribute at the time of the call (read only by the tail of Audit.find_sample_size:
+            # `con.sample_size / (con.cards - old_sizes[c])`); tests, margins and tallies were made with c["cards"]
+            contests[c["id"]].cards = c["cards_now"]
     return audit, contests
 
 
@@ -192,7 +216,7 @@ def run_audit(case, only=None, spy=None):
                                 mvr_sample=None, cvr_sample=None)
         _warm(case, spy, contests=contests, call=earlier)
     tot = audit.find_sample_size(contests, cvrs=cvrs, mvr_sample=mvr, cvr_sample=cvr)
-    return {cid: int(con.sample_size) for cid, con in contests.items()}, float(tot)
+    return {cid: int(con.sample_size) for cid, con in contests.items()}, float(tot), obs_p(cvrs)
 
 
 def build_audit(case):
@@ -205,9 +229,15 @@ def build_audit(case):
 
 
 def build_cvrs(votes, sampled=False):
+    """CVRs of a one-contest case (contest id "c"): an entry is a candidate, None (contest on the card, no vote), or
+    {"v": candidate | None, "has": bool, "sampled": bool, "phantom": bool}"""
     from shangrla.core.Audit import CVR
-    return CVR.from_dict([{"id": str(i), "votes": ({"c": {v: True}} if v is not None else {"c": {}}),
-                           "sample_num": i, "sampled": sampled} for i, v in enumerate(votes)])
+    out = []
+    for i, v in enumerate(votes):
+        e = v if isinstance(v, dict) else {"v": v, "has": True, "sampled": sampled, "phantom": False}
+        out.append({"id": str(i), "votes": ({"c": ({e["v"]: True} if e["v"] is not None else {})} if e.get("has", True) else {}),
+                    "sample_num": i, "sampled": bool(e.get("sampled", sampled)), "phantom": bool(e.get("phantom", False))})
+    return CVR.from_dict(out)
 
 
 # ---------------------------------------------------------------------------------------------
@@ -289,11 +319,13 @@ def observe(case):
                     a2.error_rate_1, a2.error_rate_2 = r1, r2
                     a2.find_sample_size({"c": con}, cvrs=build_cvrs(case["cvrs"]), mvr_sample=None, cvr_sample=None)
                 _warm(case, spy, contests={"c": con}, call=earlier)
+                if case["contest"].get("cards_now") is not None:
+                    con.cards = case["contest"]["cards_now"]
                 tot = audit.find_sample_size({"c": con}, cvrs=cvrs, mvr_sample=mvr, cvr_sample=cvr)
-                res = {"st": "ok", "n": int(con.sample_size), "total": float(tot)}
+                res = {"st": "ok", "n": int(con.sample_size), "total": float(tot), "p": obs_p(cvrs)}
             elif op == "audit":
-                sizes, tot = run_audit(case, spy=spy)
-                res = {"st": "ok", "sizes": [sizes[c["id"]] for c in case["contests"]], "total": tot}
+                sizes, tot, ps = run_audit(case, spy=spy)
+                res = {"st": "ok", "sizes": [sizes[c["id"]] for c in case["contests"]], "total": tot, "p": ps}
             elif op == "raire":
                 from shangrla.raire.sample_estimator import sample_size
                 args = types.SimpleNamespace(erate1=flt(case["erate1"]), erate2=flt(case["erate2"]),
@@ -409,7 +441,40 @@ def audit_request(case, calls):
         items, ci = items_of(c, "audit", case["mvr"] is not None, au["reps"], c.get("proved"), calls, ci, base.get(c["id"]))
         cs.append({"audit_type": c["audit_type"], "items": items})
     return {"has_mvr": case["mvr"] is not None, "contests": cs, "rate_1": au["rate_1"], "rate_2": au["rate_2"],
-            "quantile": au["quantile"]}
+            "quantile": au["quantile"], "style": style_json(case)}
+
+
+def tail_cards(case):
+    """the cards of a style case as the tail of Audit.find_sample_size reads them:
+    [{"contests": [ids on the card], "sampled": bool, "phantom": bool}]"""
+    if case["op"] == "audit_contest":
+        out = []
+        for v in case["cvrs"]:
+            e = v if isinstance(v, dict) else {"v": v, "has": True, "sampled": False, "phantom": False}
+            out.append({"contests": ["c"] if e.get("has", True) else [], "sampled": bool(e.get("sampled", False)),
+                        "phantom": bool(e.get("phantom", False))})
+        return out
+    return [{"contests": list(card_votes(card)), "sampled": bool(card.get("_sampled", False)),
+             "phantom": bool(card.get("_phantom", False))} for card in case["cvrs"]]
+
+
+def tail_contests(case):
+    """[(id, con.cards at the time of the call)] in dict order"""
+    if case["op"] == "audit_contest":
+        c = case["contest"]
+        return [("c", c["cards_now"] if c.get("cards_now") is not None else c["cards"])]
+    return [(c["id"], c["cards_now"] if c.get("cards_now") is not None else c["cards"]) for c in case["contests"]]
+
+
+def has_style(case):
+    return (case["op"] == "audit_contest" or (case["op"] == "audit" and case["use_style"])) and case.get("cvrs") is not None
+
+
+def style_json(case):
+    if not has_style(case):
+        return None
+    cs = tail_contests(case)
+    return {"ids": [i for i, _ in cs], "cards": [n for _, n in cs], "cvrs": tail_cards(case)}
 
 
 def dyadic(v):
@@ -472,7 +537,7 @@ def request0(case):
         au = case["audit"]
         return (NAME, op, {"audit_type": case["contest"]["audit_type"], "has_mvr": case["mvr"] is not None,
                            "items": multi_items(case, calls), "rate_1": au["rate_1"], "rate_2": au["rate_2"],
-                           "quantile": au["quantile"]})
+                           "quantile": au["quantile"], "style": style_json(case) if op == "audit_contest" else None})
     if op == "audit":
         return (NAME, "audit", audit_request(case, calls))
     if op == "raire":
@@ -486,6 +551,48 @@ def pops_close(a, b):
     return len(a) == len(b) and all(abs(x - float(F(y))) <= 1e-9 * max(1.0, abs(x)) for x, y in zip(a, b))
 
 
+def xr_close(x, y):
+    """float `x` (None: attribute not set) vs the model's exact value `y` ("p/q", "inf", "-inf", "nan")"""
+    if x is None:
+        return False
+    if y in ("inf", "-inf"):
+        return x == float(y)
+    if y == "nan":
+        return math.isnan(x)
+    return math.isfinite(x) and abs(x - float(F(y))) <= 1e-9 * max(1.0, abs(x))
+
+
+def compare_tail(case, ir, mr):
+    """the style tail of Audit.find_sample_size: every cvr.p and the returned total"""
+    if not has_style(case) or "p" not in mr:
+        return None
+    ps = ir.get("p") or []
+    if len(ps) != len(mr["p"]):
+        return f"number of cards with a sampling probability differs: impl {len(ps)} model {len(mr['p'])}"
+    bad = [i for i, (x, y) in enumerate(zip(ps, mr["p"])) if not xr_close(x, y)]
+    if bad:
+        i = bad[0]
+        return (f"cvr.p differs at cards {bad[:6]}: card {i} ({tail_cards(case)[i]}) impl {ps[i]!r} model {mr['p'][i]} "
+                f"(contests (id, cards) {tail_contests(case)}, sample sizes {mr.get('sizes', [mr.get('n')])}, "
+                f"already sampled per contest {mr.get('old')})")
+    if float(ir["total"]) != float(mr["total"]):
+        return (f"returned total (style) differs: impl {ir['total']} model {mr['total']} = ceil({mr['sum']}) "
+                f"(sample sizes {mr.get('sizes', [mr.get('n')])}, cvr.p {mr['p'][:12]})")
+    return None
+
+
+def ceil_fragile(case, mr):
+    """the exact sum of the cvr.p is within 1e-9 of an integer and some summand is not a binary fraction: the float sum
+    may land on either side of that integer, and `math.ceil` differs by one"""
+    if not has_style(case) or "sum" not in mr or mr["sum"] in ("inf", "-inf", "nan"):
+        return False
+    sm = F(mr["sum"])
+    if abs(sm - round(sm)) > F(1, 10 ** 9):
+        return False
+    tc = tail_cards(case)
+    return any(not dyadic(p) for p, cd in zip(mr["p"], tc) if not cd["phantom"] and p not in ("inf", "-inf", "nan"))
+
+
 def compare(case, ir, mr):
     if ir.get("st") != mr.get("st"):
         return f"status differs: impl={ir.get('st')}/{ir.get('err')} ({ir.get('msg')}) model={mr.get('st')}/{mr.get('err')}"
@@ -496,7 +603,11 @@ def compare(case, ir, mr):
             return f"per-contest sample sizes differ: impl {ir['sizes']} model {mr['sizes']} (contests {[c['id'] for c in case['contests']]})"
         if not case["use_style"] and mr["total_nostyle"] != int(ir["total"]):
             return f"returned total (no style) differs: impl {ir['total']} model {mr['total_nostyle']}"
-        return None
+        return compare_tail(case, ir, mr)
+    if case["op"] == "audit_contest" and ir["n"] == mr["n"]:
+        d = compare_tail(case, ir, mr)
+        if d:
+            return d
     if case["op"] == "interleave":
         return None if pops_close(ir["x"], mr["x"]) else f"interleaved values differ: impl {ir['x'][:12]} model {mr['x'][:12]}"
     if "pop" in ir and "pop" in mr and not pops_close(ir["pop"], mr["pop"]):
@@ -552,6 +663,8 @@ def fragile(case, ir, mr):
     values), int(1/rate) differs between float and exact arithmetic, or the alternative sits at u"""
     if mr.get("near"):
         return True
+    if ceil_fragile(case, mr):
+        return True
     if any(eta_at_u(i) for i in inits_of(case)):
         return True
     for k in ("rate_1", "rate_2", "erate1", "erate2"):
@@ -573,6 +686,23 @@ def fragile(case, ir, mr):
     return False
 
 
+def tail_tag(case):
+    """which part of the style tail a case exercises: `edge` some contest has cards <= the number of its cards already
+    sampled (division by zero / negative), `flags` some card is already sampled, a phantom, or lists only some of the
+    contests, `plain` otherwise"""
+    if not has_style(case):
+        return ""
+    tc = tail_cards(case)
+    for cid, n in tail_contests(case):
+        old = sum(1 for cd in tc if cid in cd["contests"] and cd["sampled"])
+        if n - old <= 0:
+            return ":tail-edge"
+    ids = [i for i, _ in tail_contests(case)]
+    if any(cd["sampled"] or cd["phantom"] or any(i not in cd["contests"] for i in ids) for cd in tc):
+        return ":tail-flags"
+    return ":tail-plain"
+
+
 def signature(case, ir):
     op = case["op"]
     if op == "nm":
@@ -590,11 +720,13 @@ def signature(case, ir):
         return ("trivial:" if len(ir["x"]) < 2 else "") + tag
     elif op in ("contest", "audit_contest"):
         tag = f"{op}:{case['contest']['audit_type']}:{'mvr' if case['mvr'] is not None else 'nomvr'}:{'det' if case['audit']['reps'] is None else 'sim'}"
+        if op == "audit_contest":
+            tag += tail_tag(case)
         N = case["contest"]["cards"]
     elif op == "audit":
         types = "+".join(sorted({c["audit_type"][:4] for c in case["contests"]}))
         tag = (f"audit:{len(case['contests'])}:{types}:{'style' if case['use_style'] else 'nostyle'}:"
-               f"{'mvr' if case['mvr'] is not None else 'nomvr'}:{'det' if case['audit']['reps'] is None else 'sim'}")
+               f"{'mvr' if case['mvr'] is not None else 'nomvr'}:{'det' if case['audit']['reps'] is None else 'sim'}") + tail_tag(case)
         if ir.get("st") != "ok":
             return tag + ":err:" + str(ir.get("err"))
         sz = ir["sizes"]
@@ -846,6 +978,19 @@ def gen_multi(rng, tier, op):
         k = len(winners) * len(losers)
         case["proved"] = [rng.chance(0.3) for _ in range(k)]
         case["cvrs"] = [rng.choice(cands) for _ in range(min(N, 8))]
+        if rng.chance(0.7):
+            # the style tail: cards already sampled, phantoms, cards without the contest; the contest's `cards` at, below
+            # or just above the number of its cards already sampled
+            m = rng.choice([min(N, 8), rng.randint(0, 6), rng.randint(5, 20)])
+            ps, pp, ph = rng.choice([(0, 0, 1), (0.3, 0.15, 0.85), (0.6, 0.1, 1), (0.2, 0.4, 0.7), (1, 0, 1)])
+            case["cvrs"] = [{"v": rng.choice(cands + [None]), "has": rng.chance(ph), "sampled": rng.chance(ps),
+                             "phantom": rng.chance(pp)} for _ in range(m)]
+            lst = [e for e in case["cvrs"] if e["has"]]
+            old = sum(1 for e in lst if e["sampled"])
+            r = rng.random()
+            if r < 0.35:
+                case["contest"]["cards_now"] = rng.choice([old, old, max(0, old - 1), old + 1, len(lst),
+                                                           sum(1 for e in lst if not e["phantom"]), len(lst) + 3])
     return case
 
 
@@ -887,6 +1032,35 @@ def gen_contest_spec(rng, cid, at, kind):
             "proved": [rng.chance(0.2) for _ in range(len(winners) * len(losers))]}
 
 
+def decorate_cards(rng, contests, cards):
+    """style cases: some cards are already sampled, some are phantoms, some list only a subset of the contests or none;
+    more cards than the default; for some contests `cards` (at the time of the call) equals / is below / is just above
+    the number of its cards that are already sampled (boundary cards - old = 0), or is exactly the number of cards
+    (non-phantom cards) that list it"""
+    extra = rng.choice([0, 0, 3, 8, 14])
+    for _ in range(extra):
+        cards.append({c["id"]: rng.choice(c["candidates"]) for c in contests})
+    ps, pp, pk = rng.choice([(0.3, 0.15, 0.8), (0.6, 0.1, 1.0), (0.15, 0.35, 0.6), (0, 0, 1.0), (0.3, 0, 0.5), (1, 0, 1)])
+    for i, card in enumerate(cards):
+        keep = {cid: v for cid, v in card.items() if rng.chance(pk)}
+        if rng.chance(0.1):
+            for cid in keep:
+                if rng.chance(0.3):
+                    keep[cid] = None                          # contest on the card, no vote
+        card.clear()
+        card.update(keep)
+        if rng.chance(ps):
+            card["_sampled"] = True
+        if rng.chance(pp):
+            card["_phantom"] = True
+    for c in contests:
+        lst = [cd for cd in cards if c["id"] in cd]
+        old = sum(1 for cd in lst if cd.get("_sampled"))
+        if rng.chance(0.3):
+            c["cards_now"] = rng.choice([old, old, max(0, old - 1), old + 1, len(lst),
+                                         sum(1 for cd in lst if not cd.get("_phantom")), len(lst) + 2])
+
+
 def gen_audit(rng, tier):
     """Audit.find_sample_size on 2-4 contests in one call"""
     n = rng.choice([2, 2, 3, 3, 4])
@@ -908,6 +1082,8 @@ def gen_audit(rng, tier):
              "rate_2": S(rng.choice([F(0), F(0), F(1, 10), F(1, 100), F(1, 4)])),
              "reps": reps, "quantile": S(rng.choice(QUANTS)), "seed": rng.randint(0, 2 ** 32 - 1)}
     need_cvrs = use_style or any(c["audit_type"] == "ONEAUDIT" for c in contests)
+    if use_style and rng.chance(0.8):
+        decorate_cards(rng, contests, cards)
     case = {"op": "audit", "use_style": use_style, "contests": contests, "audit": audit,
             "cvrs": cards if need_cvrs or rng.chance(0.5) else None, "mvr": None, "cvr": None}
     if rng.chance(0.08):
@@ -969,7 +1145,7 @@ def corpus():
         return {"op": "find", "asn": a, "data": data, "prefix": prefix, "rate_1": r1, "rate_2": r2, "reps": reps,
                 "seed": seed, "quantile": q, "stream": stream}
 
-    def audit2(order, use_style, types=("CARD_COMPARISON", "CARD_COMPARISON")):
+    def audit2(order, use_style, types=("CARD_COMPARISON", "CARD_COMPARISON"), cards=None, proved=None, cards_now=None):
         # a tight contest (large estimate) and a landslide (small estimate) in one call, in the given dict order
         i0 = init(N=32, eta="3/4", g="1/10")
         i0["u"] = "1"
@@ -979,8 +1155,12 @@ def corpus():
               "county": {"id": "county", "audit_type": types[1], "cards": 16, "risk_limit": "1/5", "candidates": ["D", "E"],
                          "winners": ["D"], "losers": ["E"], "tally": [["D", 14], ["E", 2]], "init": dict(i0, N=16),
                          "proved": [False]}}
-        cards = [{"city": "A", "county": "D"}, {"city": "B", "county": "D"}, {"city": "A", "county": "E"},
-                 {"city": "C", "county": "D"}, {"city": "A", "county": "D"}]
+        cards = cards or [{"city": "A", "county": "D"}, {"city": "B", "county": "D"}, {"city": "A", "county": "E"},
+                          {"city": "C", "county": "D"}, {"city": "A", "county": "D"}]
+        for k, v in (proved or {}).items():
+            cs[k]["proved"] = v
+        for k, v in (cards_now or {}).items():
+            cs[k]["cards_now"] = v
         return {"op": "audit", "use_style": use_style, "contests": [cs[k] for k in order],
                 "audit": {"rate_1": "1/10", "rate_2": "0", "reps": None, "quantile": "1/2", "seed": 1},
                 "cvrs": cards, "mvr": None, "cvr": None}
@@ -1009,6 +1189,22 @@ def corpus():
         audit2(["city", "county"], True), audit2(["county", "city"], True), audit2(["city", "county"], False),
         audit2(["city", "county"], False, types=("POLLING", "POLLING")),
         audit2(["city", "county"], True, types=("ONEAUDIT", "CARD_COMPARISON")),
+        # the style tail: a sampled card, a phantom, a card that lists one contest, a card that lists none
+        audit2(["city", "county"], True, cards=[{"city": "A", "county": "D", "_sampled": True}, {"city": "B", "county": "D"},
+                                                 {"city": "A"}, {"county": "D", "_phantom": True}, {}]),
+        # one contest on every card, nothing sampled, cards = number of cards: the total is the contest's sample size
+        # (Props/C16Total.lean style_single) -- up to the float rounding of the sum (DESIGN 15.7)
+        audit2(["county"], True, cards=[{"county": "D"}] * 20, cards_now={"county": 20}),
+        # dict order matters when a ratio is 0/0 (Props/C16Total.lean style_order_matters): `county` is confirmed
+        # (sample_size 0) and all of its `cards` are in the sample, yet one more card lists it.  county first: the nan is
+        # replaced by city's ratio and the call returns 2; city first: max(nan, r) is nan and math.ceil raises ValueError
+        audit2(["county", "city"], True, cards=[{"city": "A", "county": "D", "_sampled": True}, {"city": "A", "county": "D"}],
+               proved={"county": [True]}, cards_now={"county": 1}),
+        audit2(["city", "county"], True, cards=[{"city": "A", "county": "D", "_sampled": True}, {"city": "A", "county": "D"}],
+               proved={"county": [True]}, cards_now={"county": 1}),
+        # cards - old = 0 with a positive sample size: inf, OverflowError
+        audit2(["city", "county"], True, cards=[{"city": "A", "county": "D", "_sampled": True}, {"city": "A", "county": "D"}],
+               cards_now={"county": 1}),
         il(5, 3, 6), il(0, 3, 6, "1/10", "1", "2"), il(3, 2, 0), il(0, 0, 4), il(0, 5, 0), il(7, 0, 0), il(0, 0, 0),
         il(1, 1, 1), il(2, 0, 5), il(1, 0, 0),
     ]
@@ -1034,11 +1230,11 @@ def gen(rng, n, tier):
             yield gen_nm(rng, tier)
         elif r < 0.62:
             yield with_warm(rng, gen_find(rng, tier))
-        elif r < 0.76:
+        elif r < 0.72:
             yield gen_interleave(rng, tier)
-        elif r < 0.86:
+        elif r < 0.82:
             yield with_warm(rng, gen_multi(rng, tier, "contest"))
-        elif r < 0.90:
+        elif r < 0.88:
             yield with_warm(rng, gen_multi(rng, tier, "audit_contest"))
         elif r < 0.96:
             yield with_warm(rng, gen_audit(rng, tier))
@@ -1139,7 +1335,59 @@ def oracle_find_pop(asn, ir, r1, r2, N):
     return None
 
 
+def oracle_tail(case, ir, sizes):
+    """the documented style tail of Audit.find_sample_size, recomputed with exact fractions from the OBSERVED
+    con.sample_size values (independent of the model): a card already in the sample has p = 1; any other card has
+    p = the largest of sample_size_c / (cards_c - number of c's cards already sampled) over the audited contests c it
+    lists, 0 if it lists none; the returned total is the sum of p over the cards that are not phantoms, rounded up.
+    Cards that list a contest with no cards left to draw (cards_c <= already sampled) are outside the definition."""
+    if not has_style(case) or ir.get("p") is None or "total" not in ir:
+        return None
+    tc, cs = tail_cards(case), tail_contests(case)
+    if len(ir["p"]) != len(tc) or len(sizes) != len(cs):
+        return {"what": f"{len(ir['p'])} sampling probabilities for {len(tc)} cards"}
+    old = {cid: sum(1 for cd in tc if cid in cd["contests"] and cd["sampled"]) for cid, _ in cs}
+    size = {cid: k for (cid, _), k in zip(cs, sizes)}
+    doc = []
+    for cd in tc:
+        if cd["sampled"]:
+            doc.append(F(1))
+            continue
+        mine = [(cid, n) for cid, n in cs if cid in cd["contests"]]
+        doc.append(None if any(n - old[cid] <= 0 for cid, n in mine)
+                   else max([F(size[cid], n - old[cid]) for cid, n in mine] + [F(0)]))
+    ctx = (f"contests (id, cards) {cs}, sample sizes {sizes}, already sampled per contest {old}")
+    for i, (x, d) in enumerate(zip(ir["p"], doc)):
+        if d is None:
+            continue
+        if x is None or not math.isfinite(x) or abs(x - float(d)) > 1e-9 * max(1.0, abs(x)):
+            return {"what": f"card {i} {tc[i]}: cvr.p = {x!r} after Audit.find_sample_size, but "
+                            + ("a card already in the sample must have p = 1" if tc[i]["sampled"] else
+                               f"the largest of sample_size/(cards - already sampled) over the contests it lists is {d} = {float(d)!r}")
+                            + f" ({ctx})"}
+    summed = [d for d, cd in zip(doc, tc) if not cd["phantom"]]
+    if any(d is None for d in summed):
+        return None
+    sm = sum(summed, F(0))
+    lo, hi = math.ceil(sm - F(1, 10 ** 9)), math.ceil(sm + F(1, 10 ** 9))
+    if not (lo <= ir["total"] <= hi):
+        return {"what": f"returned total {ir['total']} but the sum of the sampling probabilities of the {len(summed)} cards that are "
+                        f"not phantoms is {sm} = {float(sm)!r}, rounded up {math.ceil(sm)} ({ctx}; "
+                        f"{sum(1 for cd in tc if cd['sampled'] and not cd['phantom'])} of them already sampled, "
+                        f"{sum(1 for cd in tc if cd['phantom'])} phantoms)"}
+    return None
+
+
 def oracle_c16(case, ir):
+    v = oracle_c16_estimates(case, ir)
+    if v:
+        return v
+    if ir.get("st") == "ok" and has_style(case):
+        return oracle_tail(case, ir, ir["sizes"] if case["op"] == "audit" else [ir["n"]])
+    return None
+
+
+def oracle_c16_estimates(case, ir):
     op = case["op"]
     if ir.get("st") != "ok":
         if op == "interleave" and min(case["n_small"], case["n_med"], case["n_big"]) >= 0 and \
